@@ -40,7 +40,7 @@ async fn run_case(c: Case, irr_port: u16) -> Value {
         faults.push((c.op.clone(), c.occ - 1, FaultKind::HoldOk));
         late_ms = 30;
     }
-    let script = Script { running: e2e::running_config(&managed), faults, fail_connections: vec![], ephemeral_name: "bgpfu".into(), chunk: 0, slow_commit: vec![], faults_only_session: None, late_ms };
+    let script = Script { running: e2e::running_config(&managed), faults, fail_connections: vec![], ephemeral_name: "bgpfu".into(), chunk: 0, slow_commit: vec![], faults_only_session: None, late_ms, no_match_is_empty_data: false };
     let junos = match FakeJunos::start(script, Config::default()).await {
         Ok(j) => j,
         Err(e) => return json!({"harness_error": format!("fake junos: {e}")}),
@@ -132,9 +132,9 @@ pub fn run(cfg: &Cfg) -> i32 {
     let thorough = cfg.thorough();
     let ns: Vec<usize> = if thorough { vec![0, 1, 2, 3, 5] } else { vec![0, 2] };
     let kinds: Vec<FaultKind> = if thorough {
-        vec![FaultKind::RpcError, FaultKind::WarningThenOk, FaultKind::NoPositive, FaultKind::NotXml, FaultKind::Truncated, FaultKind::WrongMessageId, FaultKind::CloseBefore, FaultKind::CloseAfter, FaultKind::StallThenClose, FaultKind::DelayedRpcError, FaultKind::ErrorThenOk, FaultKind::ErrorWarningThenOk, FaultKind::ForeignError, FaultKind::ErrorReplyThenSecondPositiveReply, FaultKind::ErrorRootThenPositiveRootSameId, FaultKind::ErrorRootThenPositiveRootOtherId]
+        vec![FaultKind::RpcError, FaultKind::WarningThenOk, FaultKind::NoPositive, FaultKind::NotXml, FaultKind::Truncated, FaultKind::WrongMessageId, FaultKind::CloseBefore, FaultKind::CloseAfter, FaultKind::StallThenClose, FaultKind::DelayedRpcError, FaultKind::ErrorThenOk, FaultKind::ErrorWarningThenOk, FaultKind::ForeignError, FaultKind::ErrorReplyThenSecondPositiveReply, FaultKind::ErrorRootThenPositiveRootSameId, FaultKind::ErrorRootThenPositiveRootOtherId, FaultKind::NotUtf8InComment, FaultKind::NotUtf8InWarningText]
     } else {
-        vec![FaultKind::RpcError, FaultKind::NoPositive, FaultKind::WrongMessageId, FaultKind::CloseBefore, FaultKind::DelayedRpcError, FaultKind::ErrorThenOk, FaultKind::ErrorWarningThenOk, FaultKind::ForeignError, FaultKind::ErrorReplyThenSecondPositiveReply, FaultKind::ErrorRootThenPositiveRootSameId, FaultKind::ErrorRootThenPositiveRootOtherId]
+        vec![FaultKind::RpcError, FaultKind::NoPositive, FaultKind::WrongMessageId, FaultKind::CloseBefore, FaultKind::DelayedRpcError, FaultKind::ErrorThenOk, FaultKind::ErrorWarningThenOk, FaultKind::ForeignError, FaultKind::ErrorReplyThenSecondPositiveReply, FaultKind::ErrorRootThenPositiveRootSameId, FaultKind::ErrorRootThenPositiveRootOtherId, FaultKind::NotUtf8InComment, FaultKind::NotUtf8InWarningText]
     };
     let mut cases: Vec<Case> = Vec::new();
     for &n in &ns {
@@ -147,10 +147,10 @@ pub fn run(cfg: &Cfg) -> i32 {
         for (op, occ) in positions {
             for kind in &kinds {
                 let applicable = match kind {
-                    FaultKind::ErrorThenOk | FaultKind::ErrorWarningThenOk | FaultKind::DelayedRpcError | FaultKind::ErrorRootThenPositiveRootSameId | FaultKind::ErrorRootThenPositiveRootOtherId => op == "load-configuration",
+                    FaultKind::ErrorThenOk | FaultKind::ErrorWarningThenOk | FaultKind::DelayedRpcError | FaultKind::ErrorRootThenPositiveRootSameId | FaultKind::ErrorRootThenPositiveRootOtherId | FaultKind::NotUtf8InWarningText => op == "load-configuration",
                     FaultKind::ErrorReplyThenSecondPositiveReply => op == "load-configuration" && occ >= 1,
                     FaultKind::HoldOk => false,
-                    FaultKind::RpcError | FaultKind::WarningThenOk | FaultKind::NoPositive | FaultKind::WrongMessageId | FaultKind::CloseAfter | FaultKind::ForeignError => op != "hello",
+                    FaultKind::RpcError | FaultKind::WarningThenOk | FaultKind::NoPositive | FaultKind::WrongMessageId | FaultKind::CloseAfter | FaultKind::ForeignError | FaultKind::NotUtf8InComment => op != "hello",
                     _ => true,
                 };
                 if applicable {
